@@ -152,8 +152,98 @@ def prefused_extent_family(sr, rng):
     return out
 
 
+def nested_chain_family(sr, rng, fuse=True, values="int"):
+    """Arrays fused TWICE (a fused leg that is itself a sub-index of a fused leg) whose only
+    difference lies at the bottom of the fuse history: order / direction / charge tables of
+    the innermost sub-indices, all giving the same table one and two levels up."""
+    from . import gen
+    from . import refsym as R
+
+    sym = rng.choice(["Z2", "Z2", "U1", "Z4", "Z2Z2"])
+    pool = gen.POOL[sym]
+    ferm = rng.random() < 0.3
+    d0 = rng.random() < 0.5
+    c0 = rng.choice(pool)
+    cs = rng.sample(pool, 2)
+    ia = ({c0: 2}, d0)
+    ib = ({cs[0]: 1, cs[1]: 1}, d0)
+    variants = [("nested-A", [ia, ib]), ("nested-B", [ib, ia])]
+    if sym in ("Z2", "Z2Z2"):
+        # direction does not matter for the fused table of a self-inverse group
+        variants.append(("nested-C", [(ia[0], not d0), ib]))
+        variants.append(("nested-D", [ib, (ia[0], not d0)]))
+    rest = [({c: rng.randint(1, 2) for c in rng.sample(pool, 2)}, rng.random() < 0.5) for _ in range(3)]
+    seedv = rng.getrandbits(40)
+    out = []
+    for tag, first in variants:
+        r2 = random.Random(seedv)
+        idx = [sr.BlockIndex(dict(cm), dual=d) for cm, d in first + rest]
+        secs_all = list(__import__("itertools").product(*[sorted(ix.chargemap) for ix in idx]))
+        ch = R.sector_charge(sym, sorted(secs_all, key=repr)[0], [ix.dual for ix in idx])
+        secs = gen.all_sectors(sym, idx, ch)
+        if not secs:
+            continue
+        vals = gen.Values(r2, values)
+        blocks = {s_: vals(tuple(ix.chargemap[c] for ix, c in zip(idx, s_))) for s_ in secs}
+        cls, extra, _ = gen.pick_class(sr, r2, sym, ferm, kind="generic_str" if sym == "Z4" else "static")
+        kw = dict(indices=idx, charge=ch, blocks=blocks, **extra)
+        if ferm and R.par(sym, ch):
+            kw["oddpos"] = 17
+        if not fuse:
+            out.append((tag, cls(**kw)))
+            continue
+        try:
+            x = cls(**kw)
+            x1 = x.fuse((0, 1))
+            x2 = x1.fuse((0, 1))
+        except Exception:
+            continue
+        out.append((tag + "/depth2", x2))
+        if rng.random() < 0.5:
+            out.append((tag + "/depth1-bystander", x1))
+    return out
+
+
+def stripped_twin(sr, x):
+    """Same charge tables, directions, sectors and block values, but every fused leg replaced
+    by a plain index (no sub-index information). None if x has no fused leg."""
+    if not any(ix.subinfo is not None for ix in x.indices):
+        return None
+    idx = [sr.BlockIndex(dict(ix.chargemap), dual=ix.dual) for ix in x.indices]
+    kw = dict(indices=idx, charge=x.charge, blocks={k: np.array(v) for k, v in x.blocks.items()})
+    if not type(x).static_symmetry:
+        kw["symmetry"] = x.symmetry
+    if getattr(x, "fermionic", False):
+        kw["phases"] = dict(x.phases)
+        kw["oddpos"] = list(x.oddpos)
+    return type(x)(**kw)
+
+
+def _mk_op(sr, tag, x, spec):
+    kind = spec[0]
+    if kind == "fuse":
+        gs = spec[1]
+        return (f"{tag}.fuse{gs}", lambda x=x, gs=gs: x.fuse(*gs), tag)
+    if kind == "fuse-unfuse":
+        gs = spec[1]
+        return (f"{tag}.fuse{gs}.unfuse_all", lambda x=x, gs=gs: x.fuse(*gs).unfuse_all(), tag)
+    if kind == "reshape":
+        tgt = spec[1]
+        return (f"{tag}.reshape{tgt}", lambda x=x, tgt=tgt: x.reshape(tgt), tag)
+    if kind == "tensordot":
+        ax, mode = spec[1], spec[2]
+        return (f"{tag}.conj.tensordot[{ax}]{mode}", lambda x=x, ax=ax, mode=mode: sr.tensordot(x.conj(), x, axes=(ax, ax), mode=mode, preserve_array=True), tag)
+    if kind == "svd":
+        perm, kk = spec[1], spec[2]
+        return (f"{tag}.fuse-matrix{perm}/{kk}.svd_truncated", lambda x=x, perm=perm, kk=kk: _svd_digestable(sr, x.fuse(tuple(perm[:kk]), tuple(perm[kk:]))), tag)
+    perm = spec[1]
+    return (f"{tag}.transpose{perm}", lambda x=x, perm=perm: x.transpose(perm), tag)
+
+
 def make_ops(sr, seed, n):
-    """-> list of (description, thunk). Operands are shared between ops."""
+    """-> (arrays, ops); ops = list of (description, thunk, operand tag). Operands are shared
+    between ops. Every operand with a fused leg also has a 'stripped' twin (same tables, no
+    sub-index information) on which the same op is issued."""
     from . import gen
     from checks.c05 import groupings
 
@@ -163,35 +253,38 @@ def make_ops(sr, seed, n):
         arrays += family(sr, rng)
     arrays += subindex_twins(sr, rng)
     arrays += prefused_extent_family(sr, rng)
+    arrays += nested_chain_family(sr, rng)
+    twins = {}
+    for tag, x in list(arrays):
+        t = stripped_twin(sr, x)
+        if t is not None:
+            twins[tag] = ("stripped:" + tag, t)
+            arrays.append(twins[tag])
+    base = [(t, x) for t, x in arrays if not t.startswith("stripped:")]
+    fused_in = [(t, x) for t, x in base if t in twins]
     ops = []
     for k in range(n):
-        tag, x = rng.choice(arrays)
+        tag, x = rng.choice(fused_in) if (fused_in and rng.random() < 0.35) else rng.choice(base)
         kind = rng.choice(["fuse", "fuse", "reshape", "tensordot", "svd", "transpose", "fuse-unfuse"])
         if x.ndim < 2:
             kind = "transpose"
-        if kind == "fuse":
-            gs = rng.choice(groupings(rng, x.ndim, 3))
-            ops.append((f"{tag}.fuse{gs}", lambda x=x, gs=gs: x.fuse(*gs)))
-        elif kind == "fuse-unfuse":
-            gs = rng.choice(groupings(rng, x.ndim, 3))
-            ops.append((f"{tag}.fuse{gs}.unfuse_all", lambda x=x, gs=gs: x.fuse(*gs).unfuse_all()))
+        if kind in ("fuse", "fuse-unfuse"):
+            spec = (kind, rng.choice(groupings(rng, x.ndim, 3)))
         elif kind == "reshape":
             shp = tuple(ix.size_total for ix in x.indices)
             kk = rng.randint(0, x.ndim - 2)
-            tgt = shp[:kk] + (shp[kk] * shp[kk + 1],) + shp[kk + 2 :]
-            ops.append((f"{tag}.reshape{tgt}", lambda x=x, tgt=tgt: x.reshape(tgt)))
+            spec = (kind, shp[:kk] + (shp[kk] * shp[kk + 1],) + shp[kk + 2 :])
         elif kind == "tensordot":
             mode = rng.choice(["fused", "blockwise", "auto"])
-            nc = rng.randint(1, x.ndim)
-            ax = rng.sample(range(x.ndim), nc)
-            ops.append((f"{tag}.conj.tensordot[{ax}]{mode}", lambda x=x, ax=ax, mode=mode: sr.tensordot(x.conj(), x, axes=(ax, ax), mode=mode, preserve_array=True)))
+            spec = (kind, rng.sample(range(x.ndim), rng.randint(1, x.ndim)), mode)
         elif kind == "svd":
             kk = rng.randint(1, x.ndim - 1)
-            perm = rng.sample(range(x.ndim), x.ndim)
-            ops.append((f"{tag}.fuse-matrix{perm}/{kk}.svd_truncated", lambda x=x, perm=perm, kk=kk: _svd_digestable(sr, x.fuse(tuple(perm[:kk]), tuple(perm[kk:])))))
+            spec = (kind, rng.sample(range(x.ndim), x.ndim), kk)
         else:
-            perm = tuple(rng.sample(range(x.ndim), x.ndim))
-            ops.append((f"{tag}.transpose{perm}", lambda x=x, perm=perm: x.transpose(perm)))
+            spec = ("transpose", tuple(rng.sample(range(x.ndim), x.ndim)))
+        ops.append(_mk_op(sr, tag, x, spec))
+        if tag in twins and kind != "reshape":
+            ops.append(_mk_op(sr, twins[tag][0], twins[tag][1], spec))
     return arrays, ops
 
 
@@ -206,7 +299,7 @@ def _svd_digestable(sr, m):
 
 def run_ops(ops):
     out = []
-    for desc, fn in ops:
+    for desc, fn, *_ in ops:
         try:
             out.append(result_digest(fn()))
         except Exception as e:  # recorded, compared like a value
